@@ -54,6 +54,13 @@ fn main() {
     println!("  {:?}: {:?},", "t047", format!("{:?}", mrtest::t047()));
     println!("  {:?}: {:?},", "t048", format!("{:?}", mrtest::t048()));
     println!("  {:?}: {:?},", "t049", format!("{:?}", mrtest::t049()));
-    println!("  {:?}: {:?}", "t050", format!("{:?}", mrtest::t050()));
+    println!("  {:?}: {:?},", "t050", format!("{:?}", mrtest::t050()));
+    println!("  {:?}: {:?},", "t051", format!("{:?}", mrtest::t051()));
+    println!("  {:?}: {:?},", "t052", format!("{:?}", mrtest::t052()));
+    println!("  {:?}: {:?},", "t053", format!("{:?}", mrtest::t053()));
+    println!("  {:?}: {:?},", "t054", format!("{:?}", mrtest::t054()));
+    println!("  {:?}: {:?},", "t055", format!("{:?}", mrtest::t055()));
+    println!("  {:?}: {:?},", "t056", format!("{:?}", mrtest::t056()));
+    println!("  {:?}: {:?}", "t057", format!("{:?}", mrtest::t057()));
     println!("}}");
 }
